@@ -79,7 +79,11 @@ func glueIndexBytes(arch string, repoNo int, pkgs []rPkg, fillers int) []byte {
 	var b strings.Builder
 	entry := func(p rPkg) {
 		s := sha1.Sum([]byte(fmt.Sprintf("%d/%s/%s-%s", repoNo, arch, p.Name, p.Version)))
-		fmt.Fprintf(&b, "C:Q1%s\nP:%s\nV:%s\nA:%s\nS:1\nI:1\nT:\nU:\nL:\n", base64.StdEncoding.EncodeToString(s[:]), p.Name, p.Version, arch)
+		fmt.Fprintf(&b, "C:Q1%s\nP:%s\nV:%s\n", base64.StdEncoding.EncodeToString(s[:]), p.Name, p.Version)
+		if af := p.archField(arch); af != "" || p.A == "" {
+			fmt.Fprintf(&b, "A:%s\n", af)
+		} // an empty field: no A: line at all
+		b.WriteString("S:1\nI:1\nT:\nU:\nL:\n")
 		if p.Origin != "" {
 			fmt.Fprintf(&b, "o:%s\n", p.Origin)
 		}
